@@ -129,3 +129,41 @@ def threshold_filters(rel):
 
         scan(n["filter"])
     return out
+
+
+def declamp(e):
+    """copy of an expression with every  Least(hi, Greatest(lo, P))  /  Greatest(lo, Least(hi, P))  around a noised term P replaced by P"""
+    if isinstance(e, list):
+        return [declamp(x) for x in e]
+    if not isinstance(e, dict):
+        return e
+    if e.get("e") == "Function" and e["f"] in ("Least", "Greatest") and len(e["args"]) == 2:
+        for lit, inner in ((e["args"][0], e["args"][1]), (e["args"][1], e["args"][0])):
+            other = "Greatest" if e["f"] == "Least" else "Least"
+            if lit_float(lit) is not None and inner.get("e") == "Function" and inner["f"] == other and len(inner["args"]) == 2 and has_fn(inner, "Random"):
+                for lit2, p in ((inner["args"][0], inner["args"][1]), (inner["args"][1], inner["args"][0])):
+                    if lit_float(lit2) is not None and has_fn(p, "Random"):
+                        return declamp(p)
+    return {k: declamp(v) for k, v in e.items()}
+
+
+def declamp_relation(rel):
+    """the relation with the clamps around noised terms removed; nodes that change (and their ancestors) get the suffix _nc so
+    that both variants can share one evaluation memo"""
+    def rec(n):
+        m = dict(n)
+        changed = False
+        for k in ("input", "left", "right"):
+            if k in n:
+                m[k], ch = rec(n[k])
+                changed = changed or ch
+        if n["k"] == "Map":
+            proj = [[name, declamp(e)] for name, e in n["projection"]]
+            if json.dumps(proj, sort_keys=True) != json.dumps(n["projection"], sort_keys=True):
+                m["projection"] = proj
+                changed = True
+        if changed:
+            m["name"] = n["name"] + "_nc"
+        return m, changed
+    out, ch = rec(rel)
+    return out, ch
